@@ -76,7 +76,7 @@ def generate(rng: random.Random, tier: str) -> dict:
     mode = rng.choice(["same-exact"] * 5 + ["same-inexact"] * 2 + ["same-rotated"] * 2 + ["cross"] * 4)
     sides = [1, 2, 3, 5, 8, 13, 16, 17, 24, 31, 48] + ([64, 96] if tier == "thorough" else [])
     sny, snx = rng.choice(sides), rng.choice(sides)
-    dtype = rng.choice(["uint8", "int8", "uint16", "int16", "int32", "float32", "float64", "bool"])
+    dtype = rng.choice(["uint8", "int8", "uint16", "int16", "int32", "float32", "float64", "bool"] * 4 + ["uint32", "int64"])
     kind = np.dtype(dtype).kind
     nd_cfg = rng.choice(["none", "none", "src", "dst", "both", "nan"])
     if nd_cfg == "nan" and kind != "f":
@@ -91,6 +91,7 @@ def generate(rng: random.Random, tier: str) -> dict:
     if nd_cfg == "nan":
         src_nd = "nan"
     tdim = rng.choice([0, 0, 0, 1, 2, 3])
+    bdim = rng.choice([2, 3]) if (tdim == 0 and rng.random() < 0.06) else 0  # trailing band axis instead
     resampling = "nearest" if rng.random() < 0.8 else rng.choice(["bilinear", "cubic", "average", "mode"])
     if dtype == "bool" or dtype == "int8":
         resampling = "nearest" if rng.random() < 0.9 else resampling
@@ -107,7 +108,7 @@ def generate(rng: random.Random, tier: str) -> dict:
             sy = -1 if rng.random() < 0.8 else 1
             sx = 1 if rng.random() < 0.9 else -1
             src_aff = [ps * sx, 0.0, ox, 0.0, ps * sy, oy]
-            scale = rng.choice([1.0, 1.0, 1.0, 2.0, 0.5, 4.0, 0.25])
+            scale = rng.choice([1.0, 1.0, 1.0, 2.0, 0.5, 4.0, 0.25, 8.0, 0.125])
             dps = ps * scale
             shift_kind = rng.choice(["int", "int", "half", "quarter", "eighth"])
             unit = {"int": 1.0, "half": 0.5, "quarter": 0.25, "eighth": 0.125}[shift_kind] * min(ps, dps)
@@ -221,6 +222,7 @@ def generate(rng: random.Random, tier: str) -> dict:
         "src_nodata": src_nd,
         "dst_nodata": dst_nd,
         "tdim": tdim,
+        "bdim": bdim,
         "resampling": resampling,
         "src_chunks": sch,
         "dst_chunks": dch,
@@ -383,13 +385,18 @@ def execute(record: dict, rng: Optional[random.Random]) -> Outcome:
         "interior_fill_differs_non_nearest": 0,
         "irregular_source_chunks": 0,
         "default_destination_chunks": 0,
+        "trailing_band_axis": 0,
     }
     dtype = cfg["dtype"]
     src_nd = float("nan") if cfg["src_nodata"] == "nan" else cfg["src_nodata"]
     dst_nd = cfg["dst_nodata"]
     tdim = cfg["tdim"]
     sny, snx = src["shape"]
+    bdim = int(cfg.get("bdim") or 0)
     shape = (sny, snx) if not tdim else (tdim, sny, snx)
+    if bdim:
+        shape = (sny, snx, bdim)
+        probes["trailing_band_axis"] = 1
     fv = fill_value(dtype, src_nd, dst_nd)
     data = make_data(shape, dtype, [src_nd, dst_nd, fv])
     if dtype in ("int8", "bool"):
@@ -405,7 +412,9 @@ def execute(record: dict, rng: Optional[random.Random]) -> Outcome:
         d_gbox = GeoBox(tuple(dst["shape"]), _affine(dst["aff"]), f"EPSG:{dst['crs']}")
         time = [f"200{i}-01-01" for i in range(tdim)] if tdim else None
         sch: Any = tuple(cfg["src_chunks"]) if not tdim else (cfg["time_chunk"], *cfg["src_chunks"])
-        if cfg.get("src_irregular"):
+        if bdim:
+            sch = (*cfg["src_chunks"], rng_bdim_chunk(cfg, bdim))
+        if cfg.get("src_irregular") and not bdim:
             irr = tuple(tuple(c) for c in cfg["src_irregular"])
             sch = irr if not tdim else ((cfg["time_chunk"],) * (tdim // cfg["time_chunk"]) + ((tdim % cfg["time_chunk"],) if tdim % cfg["time_chunk"] else ()), *irr)
             probes["irregular_source_chunks"] = 1
@@ -489,6 +498,11 @@ def execute(record: dict, rng: Optional[random.Random]) -> Outcome:
     return Outcome(v, log.hex(), ch, stats={"probes": probes}, cls=cls, nontrivial=n_reproject > 2, sample=sample, steps=steps)
 
 
+def rng_bdim_chunk(cfg: dict, bdim: int) -> int:
+    """All bands in one chunk or one chunk per band (a pure function of the record)."""
+    return bdim if (cfg["uuid_seed"] % 2) else 1
+
+
 def _hash_arr(a: np.ndarray) -> str:
     import hashlib
 
@@ -561,8 +575,12 @@ def check(cfg, src, dst, ref: np.ndarray, outs: List[np.ndarray], fv, probes) ->
     disjoint = bool(far.all())
     if disjoint:
         probes["disjoint_runs"] = 1
+    bdim = int(cfg.get("bdim") or 0)
     planes = [a] if not tdim else list(a)
     rplanes = [ref] if not tdim else list(ref)
+    if bdim:
+        planes = [a[..., k] for k in range(bdim)]
+        rplanes = [ref[..., k] for k in range(bdim)]
     for ti, (pl, rp) in enumerate(zip(planes, rplanes)):
         f_c = is_fill(pl, fv)
         # O13.2 / O13.3: far pixels hold the fill value
@@ -639,6 +657,10 @@ def candidates(record: dict) -> Iterable[dict]:
     if cfg["tdim"]:
         c = copy.deepcopy(record)
         c["config"]["tdim"] = 0
+        yield c
+    if cfg.get("bdim"):
+        c = copy.deepcopy(record)
+        c["config"]["bdim"] = 0
         yield c
     for k in ("src_irregular", "dst_default"):
         if cfg.get(k):
